@@ -138,8 +138,10 @@ func seqTasks(prop string, levels []seqLevel) []Task {
 								}
 							}
 							v.Prop = prop
-							v.Replay = mustJSON(seqReplay{Engine: "seq", Prop: prop, Cfg: cfg, Keys: lv.Keys, Ops: append([]Op{}, seq...), Trace: traceString(seq)})
-							v.Detail = fmt.Sprintf("cfg=%s trace=[%s]\n%s", cfg, traceString(seq), v.Detail)
+							if len(v.Replay) == 0 { // (a runner with its own replay engine - fault, quiet - has set it)
+								v.Replay = mustJSON(seqReplay{Engine: "seq", Prop: prop, Cfg: cfg, Keys: lv.Keys, Ops: append([]Op{}, seq...), Trace: traceString(seq)})
+								v.Detail = fmt.Sprintf("cfg=%s trace=[%s]\n%s", cfg, traceString(seq), v.Detail)
+							}
 							if ok < 2 {
 								res.Err = fmt.Sprintf("non-reproducible failure (%d/2 re-runs): %s", ok, v.Detail)
 								return false
